@@ -274,9 +274,36 @@ macro_rules! with_dimacs_lit {
             "i16" => $mac!($($args)*, i16),
             "i32" => $mac!($($args)*, i32),
             "i64" => $mac!($($args)*, i64),
+            "c1000" => $mac!($($args)*, crate::parsers::C1000),
             _ => $mac!($($args)*, isize),
         }
     };
+}
+
+/// A literal type of the user's own: the limit of a literal type is what its trait impl says (1000 here), not what its
+/// integer representation could hold.
+#[derive(Copy, Clone, PartialEq, Eq, Debug, Hash)]
+pub struct C1000(pub i16);
+impl flussab_cnf::Dimacs for C1000 {
+    const MAX_DIMACS: isize = 1000;
+    fn from_dimacs(value: isize) -> Self {
+        C1000(value as i16)
+    }
+    fn dimacs(self) -> isize {
+        self.0 as isize
+    }
+}
+/// The same for AIGER: codes up to 100, i.e. at most 49 variables.
+#[derive(Copy, Clone, PartialEq, Eq, Debug, Hash)]
+pub struct C100(pub u8);
+impl flussab_aiger::Lit for C100 {
+    const MAX_CODE: usize = 100;
+    fn from_code(code: usize) -> Self {
+        C100(code as u8)
+    }
+    fn code(self) -> usize {
+        self.0 as usize
+    }
 }
 
 macro_rules! run_cnf { ($reader:expr, $cfg:expr, $L:ty) => {
@@ -630,6 +657,7 @@ macro_rules! with_aiger_lit {
             "u16" => $f::<u16>($reader),
             "u32" => $f::<u32>($reader),
             "u64" => $f::<u64>($reader),
+            "c100" => $f::<C100>($reader),
             _ => $f::<usize>($reader),
         }
     };
